@@ -525,7 +525,8 @@ class Loop(Node):
             for child in self:
                 child.reverse_inplace()
         if self._measurements:
-            duration = self.duration
+            # measurements are relative to one execution of the body (they are tiled over the repetitions later)
+            duration = self.body_duration
             self._measurements = [
                 (name, duration - (begin + length), length)
                 for name, begin, length in self._measurements
